@@ -107,6 +107,45 @@ def run(ctx):
            what="OrderableValue::cmp and ::eq treat different variant pairs specially (cmp-only %s, eq-only %s): cmp == Equal and == can disagree"
                 % (sorted(pc - pe), sorted(pe - pc)), where=oc.loc())
 
+    # ---- R6 HashableValue: every payload variant is hashed, and the variants hashed by bit pattern or element-wise are
+    # compared the same way by Eq (a variant that falls back to Value's derived == while its hash uses bits / wrappers
+    # breaks `equal => equal hash` for NaN / -0.0 payloads)
+    hh, he = wrappers["HashableValue"]
+    hx = FlowCx(P, hh)
+    arms = {}
+    for g in P.family(hh):
+        gx = hx if g is hh else FlowCx(P, g)
+        for bi, t in g.calls():
+            vs = [f[2] for f in (hx.facts_at(bi) if g is hh else []) if f[0] == "variant" and f[1] == VAL]
+            if vs:
+                arms.setdefault(vs[0], set()).add(callee_name(t).split("::")[-1])
+    payload = [v["name"] for v in P.adts[VAL]["variants"] if v["fields"]]
+    for v in payload:
+        ctx.ob("R6", "HashableValue::hash#%s" % v, v in arms,
+               what="HashableValue::hash has no arm that hashes the payload of Value::%s: all values of that type collide or are not "
+                    "hashed consistently with Eq" % v, where=hh.loc())
+    eq_rows = {}
+    for vdesc, facts, bi, ln in return_table(P, he):
+        a = _variant_of(facts, "param:1")
+        b = _variant_of(facts, "param:2")
+        if a and b and a[0] == b[0]:
+            eq_rows.setdefault(a[0], []).append(vdesc)
+    he_calls = {callee_name(t).split("::")[-1] for g in P.family(he) for bi, t in g.calls()}
+    for v, calls in sorted(arms.items()):
+        bitwise = "to_bits" in calls
+        elementwise = v in ("List", "Map")
+        if not (bitwise or elementwise):
+            continue
+        ok = v in eq_rows
+        if ok and v == "Float64":
+            ok = any(r[0] == "cmp" and any(x.endswith("to_bits") for x in r[2]) and any(x.endswith("to_bits") for x in r[3]) for r in eq_rows[v])
+        if ok and v == "Vector":
+            ok = "to_bits" in he_calls
+        ctx.ob("R6", "HashableValue::eq#%s" % v, ok,
+               what="HashableValue hashes Value::%s %s but its Eq has no matching arm that compares the same way: equal-by-Eq values "
+                    "can hash differently (or the reverse)" % (v, "by bit pattern" if bitwise else "element-wise through the wrapper"),
+               where=he.loc())
+
     # ---- R4 spill codec
     ser = P.fn("spill::serializer::serialize_value")
     de = P.fn("spill::serializer::deserialize_value")
